@@ -365,6 +365,7 @@ def check_config(cfg, ops, tmp, ls):
                       "timed": lambda: isinstance(h, logging.handlers.TimedRotatingFileHandler)}[kindh]()
                 if not ok:
                     out.append(("wrong-handler-kind", "%s for %r" % (type(h).__name__, kindh)))
+                    continue
                 if kindh != "stream":
                     if os.path.abspath(h.baseFilename) != os.path.abspath(spec["path_text"]):
                         out.append(("wrong-handler-file", h.baseFilename))
@@ -694,6 +695,11 @@ def gen_ops(rng, n, retry=False):
     if retry:
         k = rng.randrange(4)
         return [("call", k), ("mkdir", 0), ("call", k), ("again", k), ("reopenFiles", 0), ("closeFiles", 0)]
+    if n >= 2 and rng.random() < 0.25:
+        # all loggers configured in order, one of the earlier ones dropped, then a reopen: every
+        # handler that is still alive is reopened, whatever was registered before it
+        k = rng.randrange(n - 1)
+        return [("call", j) for j in range(n)] + [("drop", k), ("reopenFiles", 0)] + [("reopenFiles", 0)] * rng.randint(0, 1)
     if rng.random() < 0.1:
         # everything closed, then one logger asked to reopen its handlers
         k = rng.randrange(4)
